@@ -79,6 +79,8 @@ def _report(ctx, s, driver, extra_args=None):
         owner = OWNER.get(kind, ctx.pid)
         if driver in ("close_race", "flush_race", "recovery_split"):
             owner = DIRECTED_OWNER.get(kind, owner)
+        if driver == "oracle_gc":
+            owner = ctx.pid
         if owner != ctx.pid:
             ctx.cov["reported_by_sibling"] = ctx.cov.get("reported_by_sibling", 0) + 1
             continue
@@ -190,6 +192,10 @@ def replay(ctx, rp):
     if rp.get("driver") == "visibility_stress":
         s = core.run_driver("visibility_stress", rp.get("args", []))
         _report(ctx, s, "visibility_stress", rp.get("args", []))
+        return
+    if rp.get("driver") == "oracle_gc":
+        s = core.run_driver("oracle_gc", [])
+        _report(ctx, s, "oracle_gc")
         return
     if rp.get("driver") == "recovery_split":
         s = core.run_driver("recovery_split", [])
